@@ -371,7 +371,7 @@ def _parse_attribute_name(name: str) -> str:
     """
 
     def _char_map(idx: int, char: str) -> str:
-        if char.isalnum() or char in ("_", "-", " "):
+        if f"_{char}".isidentifier() or char in ("-", " "):
             return char
         if char in string.whitespace:
             return "_"
